@@ -30,7 +30,7 @@ def norm_r(r):
 def wsgi_answer(rr, p, v, pat_of):
     """The answer to one request observed through Ombott.__call__ (status, Allow, handler, kwargs, hooks fired), in the
     vocabulary of RouterTrace answers."""
-    c = rr.call(p, v)
+    c = rr.call(p, v, accept=[None, 'application/json', 'text/html', '*/*'][(len(p) + len(v)) % 4])
     a = {'path': p, 'verb': v.upper(), 'h': '', 'route': [], 'params': [], 'allow': [], 'hooks': []}
     if c['status'] == 404:
         a['k'] = '404'
@@ -426,7 +426,17 @@ def run(chk, pid):
             uni.append(dict(r, id=r['id'] + 's', meths=sorted(ms), meths_spelled=ms, name=''))
         named = [r for r in uni if r['name']]
         tmpl = it % 3
-        if tmpl == 0:      # method-set edits on one pattern
+        if it % 7 == 6:
+            # a wildcard rule answers a path; then a literal rule for exactly that path is registered (and removed again)
+            seg = rl.s2l(rng.choice(['files', 'docs', 'a']))
+            leaf = rl.s2l(rng.choice(['readme', 'api', 'b1']))
+            tail = rng.choice([[], rl.s2l('/index')])
+            rw = {'id': 'wild%d' % it, 'pat': seg + [47, TOKEN] + tail, 'filters': ['None'], 'names': ['name'], 'meths': ['GET'], 'meths_spelled': ['GET'], 'name': ''}
+            rlit = {'id': 'lit%d' % it, 'pat': seg + [47] + leaf + tail, 'filters': [], 'names': [], 'meths': ['GET'], 'meths_spelled': ['GET'], 'name': ''}
+            uni = [rw, rlit]
+            ops = [{'op': 'add', 'r': rw, 'ow': False, 'spelled': None}, {'op': 'add', 'r': rlit, 'ow': False, 'spelled': None},
+                   {'op': 'remove_rule', 'r': rlit}, {'op': 'add', 'r': rlit, 'ow': False, 'spelled': None}]
+        elif tmpl == 0:      # method-set edits on one pattern
             r = rng.choice(uni)
             r2 = rng.choice([x for x in uni if x['pat'] == r['pat']])
             ops = [{'op': 'add', 'r': r, 'ow': False, 'spelled': r.get('meths_spelled')},
@@ -488,6 +498,8 @@ def run(chk, pid):
         probes = rl.instances(uni, [97, 47, 49, TOKEN], rng)
         if len(probes) > 10:
             probes = rng.sample(probes, 10)
+        if it % 7 == 6:
+            probes = [rlit['pat'], seg + [47] + rl.s2l('zz') + tail] + probes[:6]
         if reinstall:
             # every instance of the rule under the re-installed hook
             probes = [q for q in rl.instances([r], [], rng) if q[:len(hp)] == hp][:40] + probes[:4]
@@ -546,6 +558,22 @@ def rule_syntax(chk, rng, thorough):
     texts = [''.join(t) for n in range(0, 5 if thorough else 4) for t in itertools.product(alpha, repeat=n)]
     for _ in range(6000 if thorough else 1500):
         texts.append(''.join(rng.choice(alpha + 'refloatpath1_:<{') for _ in range(rng.randint(4, 14))))
+    # a path wildcard followed by literal text and a further wildcard in each syntax flavour: the look-ahead of `path` is the
+    # literal text up to the next wildcard, however that one is written
+    for w2, n2, f2 in ((':action', 'action', ''), ('<action>', 'action', ''), ('{action}', 'action', ''), ('<action:int>', 'action', 'int(None)'),
+                       ('{n.int()}', 'n', 'int()'), (':', '', '')):
+        for lit in ('/', '/do/', '-', '/e/'):
+            if w2.startswith(':') and not lit.endswith('/'):
+                continue        # the colon form starts a segment
+            for w1, n1 in (('<fp:path>', 'fp'), ('{fp.path()}', 'fp'), ('<fp.path>', 'fp'), ('{path()}', ''), ('<:path>', '')):
+                tx = 'files/' + w1 + lit + w2
+                t = real(tx)
+                # the abstract rule every one of these spellings stands for
+                t.update(kind='rendered', text=rl.s2l(tx),
+                         want={'pat': rl.s2l('files/') + [TOKEN] + rl.s2l(lit) + [TOKEN], 'names': [rl.s2l(n1), rl.s2l(n2)],
+                               'fkeys': [rl.s2l('path(%s)' % lit), rl.s2l(f2)]})
+                recs.append(t)
+                chk.count(1, ('syntax-path-lookahead', tx))
     for tx in texts:
         if '[' in tx or '\\' in tx:
             continue
